@@ -40,6 +40,19 @@ Theorem C16_profit_factor : forall ps t,
 Proof. exact sheet_profit_factor. Qed.
 Print Assumptions C16_profit_factor.
 
+(** [ProfitFactor::calculate] is insensitive to the sign in which gross profits / losses are
+    handed to it (the generator passes the signed sum of the negative returns), and wins and
+    signed losses that cancel exactly give a factor of 1 - never the "no data" answer. *)
+Theorem C16_profit_factor_sign : forall p l : Qc,
+  profit_factor_calc p (- l) = profit_factor_calc p l /\
+  profit_factor_calc (- p) l = profit_factor_calc p l /\
+  (p <> 0 -> profit_factor_calc p (- p) = Some (PFVal 1)).
+Proof.
+  intros p l. destruct (profit_factor_calc_sign p l) as [H1 H2].
+  exact (conj H1 (conj H2 (profit_factor_calc_cancel p))).
+Qed.
+Print Assumptions C16_profit_factor_sign.
+
 (** The two return datasets kept by the generator are the running summaries (hence, by C17,
     the whole-dataset statistics) of all returns and of the negative returns. *)
 Theorem C16_return_datasets : forall ps t,
